@@ -636,8 +636,13 @@ def case_mfr(p):
     loop = vloop.VirtualLoop().install()
     out = []
     try:
-        ctrl = BleController(CharacteristicCacheMemory())
-        if p.get("pairing"):
+        cache = CharacteristicCacheMemory()
+        how = p.get("pairing")
+        if isinstance(how, str):
+            # what an earlier version of the application left in the cache: the database with / without a broadcast key, with / without a state number
+            cache.async_create_or_update_map(IDS[0].upper(), 3, accessories(), ("11" * 32) if "key" in how.split("+") else None, 5 if "gsn" in how.split("+") else None)
+        ctrl = BleController(cache)
+        if how:
             ctrl.load_pairing("alias", pairing_data(IDS[0], "BLE"))
         dev, adv = ble_adv(IDS[0], data=data)
         try:
@@ -811,7 +816,9 @@ def run(ctx):
     for first in (0x06, 0x11, 0x00, 0x01, 0x10, 0x12, 0xFF):
         for src in (m, note):
             for n in range(1, len(src) + 1):
-                for with_pairing in (False, True):
+                for with_pairing in (False, True, "key", "key+gsn", "gsn", "db-only"):
+                    if isinstance(with_pairing, str) and n not in (len(src), len(src) - 1, 9, 12) and first not in (0x11, 0x06):
+                        continue
                     mf.append({"data": bytes([first]) + src[1:n], "pairing": with_pairing, **({"must_accept": True} if first == 0x06 and src is m and n >= 15 else {})})
     work += [("mfr", mf[i : i + 150]) for i in range(0, len(mf), 150)]
     streams = [{"kind": k_, "period": per, "timeout": to, "pairing": pm} for k_ in ("ip", "coap") for per in (0.05, 0.1, 0.25, 0.3, 0.45, 0.49, 0.5, 0.6, 1.0) for to in (3.0, 5.0, 10.0) for pm in ("none", "cached")]
